@@ -1,22 +1,43 @@
 //! C16 — authorisation matrix on the real contracts.
 //!
-//! Op line (self-contained, stateless):  `auth <contract> <Variant> <role> <phase> <payload-seed>`
-//!   phase `before` = hub as instantiated; `after` = every configured owner handed to `newowner`.
+//! Op line (self-contained, stateless):  `auth <contract> <Variant> <role> <phase> <payload-seed> [<object>]`
+//!   phase `before` = hub as instantiated; `after` = every configured owner handed to `newowner`;
+//!         `inloan` = hub as instantiated, and the call is made from INSIDE a flash-loan callback of the hub's
+//!         vault (LOAN_COUNTER = 1, loaned coins out), with the role's address as the sender of the nested call
+//!         (hub.rs: borrower mock + Injector module). Transient state must not change who is admitted.
 //!   seed 0 = canonical payload, anything else seeds the payload randomiser.
-//! Observation:  `ok|err nested=<0|1> real=<ok|other|unauth|nested_unauth|panic>`  (a panic past the sender check = `ok … real=panic`)
-//!   `err`      the call was refused by the TARGET's own sender check (top-level handler error whose text is
-//!              the contract's unauthorised error — the only place an error text is looked at);
-//!   `ok`       the sender got past the target's check (the call succeeded, or failed later for another reason);
-//!   `nested=1` a contract the target called as itself refused the target (e.g. factory -> transferred pair).
+//!   <object> (7th token, only for variants listed in `variants::objects`): WHICH stored object the message
+//!         names when the designated sender depends on stored data — incentive CloseFlow: `id1..id4`, `id9`
+//!         (no such flow), `labShared`, `labLate`; the hub holds four flows of two creators whose labels
+//!         collide (hub::FLOW_WORLD), and roles `flowCreator` / `otherFlowCreator`.
+//! Observation:  `ok|err nested=<0|1> real=<ok|other|unauth|nested_unauth|panic|reverted>`
+//!   `err`      the call was refused by the TARGET's own sender check (handler error of the called contract whose
+//!              text is the contract's unauthorised error — the only place an error text is looked at);
+//!   `ok`       the sender got past the target's check (the call succeeded, or failed later for another reason;
+//!              a panic past the sender check = `real=panic`; `real=reverted` = the nested call of an `inloan`
+//!              cell succeeded but the enclosing loan transaction failed afterwards);
+//!   `nested=1` a contract the target called as itself refused the target (e.g. factory -> transferred pair,
+//!              vault router -> vault with a loan in flight).
+//!   `bad-loan` the in-loan scaffold itself did not work (never expected; also fails monitor inloan_scaffold).
 //! The model (lean/WW/Model/Auth.lean) predicts the first token and `nested`; `real=` is informative.
 //!
 //! One generated "case" is ONE FULL PASS over  every ExecuteMsg variant of all 15 contracts (wildcard-free
-//! tables in `variants.rs`) x every role x {before, after}. Engine variant "canon" uses seed 0 throughout.
+//! tables in `variants.rs`; one cell per object selector where a variant names a stored object) x every role x
+//! {before, after, inloan}. Engine variant "canon" uses seed 0 throughout.
 //!
 //! Monitors (property as stated, evaluated against an independent spec table, not the model):
-//!   unauthorised_rejected   privileged variant /\ role not designated  =>  the call fails
-//!   rejected_unchanged      failed call => raw storage of ALL contracts + all balances byte-identical
+//!   unauthorised_rejected   privileged variant /\ role not designated  =>  the call fails (in every phase: a loan in
+//!                           flight admits nobody new); for a call that names a stored object: whatever object
+//!                           was removed, the sender was its creator or the factory owner
+//!   rejected_unchanged      failed call => raw storage of ALL contracts + all balances byte-identical (inloan: the
+//!                           loan around a refused nested call completes and leaves no trace either)
 //!   authorised_not_blocked  permissionless variant or designated role   =>  not refused as unauthorised
+//!                           (except vault FlashLoan inside a loan: nested loans are refused for everybody)
+//!   close_flow_exact        a successful CloseFlow removes exactly ONE flow, one that the identifier names; every
+//!                           other flow (the other creator's in particular) is byte-identical; the remainder is
+//!                           paid to the removed flow's creator and to nobody else
+//!   inloan_scaffold         the in-loan scaffold works: a loan without nested call succeeds and is state-neutral;
+//!                           the nested call is dispatched; a refused nested call does not fail the loan
 //!   ownership_transfer      after UpdateConfig{owner:=new}: old owner refused, new owner admitted, on every
 //!                           owner-guarded variant of every contract with an owner (+ the transfer calls succeed)
 //!   matrix_complete         the pass enumerates every name of the compile-time tables and every payload
@@ -26,13 +47,14 @@ mod payloads;
 mod variants;
 
 use crate::common::{Engine, Monitor, Rng};
-use cosmwasm_std::{Addr, WasmMsg};
+use cosmwasm_std::{Addr, Uint128, WasmMsg};
 use cw_multi_test::Executor;
-use hub::Hub;
+use hub::{Hub, InjectMsg, InnerOutcome};
 use std::panic::{catch_unwind, AssertUnwindSafe};
+use white_whale_std::pool_network::incentive as inc;
 
 /// roles relative to the target contract (the property's vocabulary) …
-pub const REL_ROLES: [&str; 15] = [
+pub const REL_ROLES: [&str; 17] = [
     "owner",
     "newOwner",
     "user",
@@ -48,6 +70,10 @@ pub const REL_ROLES: [&str; 15] = [
     "assetToken",
     "trioLp",
     "vaultLp",
+    // owner of OTHER stored objects of the same kind (flows 2 and 4, sharing their labels with flows 1 and 3)
+    "otherFlowCreator",
+    // the borrower mock contract itself (the realistic sender of a call nested in a flash loan)
+    "borrower",
 ];
 /// … plus EVERY hub contract as a caller (`c:<contract>`): "sibling" is not a sample
 pub fn roles() -> Vec<String> {
@@ -55,7 +81,7 @@ pub fn roles() -> Vec<String> {
     r.extend(variants::CONTRACTS.iter().map(|c| format!("c:{c}")));
     r
 }
-pub const PHASES: [&str; 2] = ["before", "after"];
+pub const PHASES: [&str; 3] = ["before", "after", "inloan"];
 
 /// what the property statement demands of the sender (independent of the Lean table)
 #[derive(Clone, Copy, Debug, PartialEq)]
@@ -105,6 +131,13 @@ fn spec_rule(contract: &str, variant: &str) -> Option<Spec> {
     }
 }
 
+/// Entry points that a vault refuses for EVERY sender while one of its loans is in flight, reporting it with its
+/// `Unauthorized` error (nested loans, property C06). Not a C16 clause; needed so that `authorised_not_blocked`
+/// does not take that refusal for a sender check.
+fn spec_refused_in_loan(contract: &str, variant: &str) -> bool {
+    matches!((contract, variant), ("vault", "FlashLoan"))
+}
+
 /// contracts that store a transferable owner
 const OWNED: [&str; 12] = [
     "terraswap_factory",
@@ -132,18 +165,50 @@ fn expected_owner(h: &Hub, contract: &str, after: bool) -> Addr {
     }
 }
 
-fn spec_authorised(h: &Hub, rule: Spec, contract: &str, sender: &Addr, after: bool) -> bool {
+/// is the sender the designated one? `ByOutcome`: the message names a stored object ambiguously (a label carried
+/// by objects of several owners, the sender owning some of them) — then the property is evaluated on what the
+/// call actually did (whatever was removed must have been the sender's).
+#[derive(Clone, Copy, Debug, PartialEq)]
+enum Designated {
+    Yes,
+    No,
+    ByOutcome,
+}
+
+fn flow_matches(fl: &inc::Flow, id: &inc::FlowIdentifier) -> bool {
+    match id {
+        inc::FlowIdentifier::Id(i) => fl.flow_id == *i,
+        inc::FlowIdentifier::Label(l) => fl.flow_label.as_ref() == Some(l),
+    }
+}
+
+fn spec_designated(h: &Hub, rule: Spec, contract: &str, sender: &Addr, after: bool, object: Option<&str>, flows: &[inc::Flow]) -> Designated {
+    let yes = |b: bool| if b { Designated::Yes } else { Designated::No };
     match rule {
-        Spec::Owner => *sender == expected_owner(h, contract, after),
-        Spec::SelfOnly => *sender == h.target(contract),
-        Spec::WasmAdmin => *sender == h.a,
-        Spec::Minter => *sender == h.pair,
-        Spec::Nobody => false,
-        Spec::FeeDistributor => *sender == h.distributor,
-        Spec::RegisteredVault => *sender == h.vault,
-        Spec::LpToken => *sender == h.lp_of(contract),
-        Spec::PoolAssetToken => *sender == h.asset_token,
-        Spec::FlowCreatorOrFactoryOwner => *sender == h.f || *sender == expected_owner(h, "incentive_factory", after),
+        Spec::Owner => yes(*sender == expected_owner(h, contract, after)),
+        Spec::SelfOnly => yes(*sender == h.target(contract)),
+        Spec::WasmAdmin => yes(*sender == h.a),
+        Spec::Minter => yes(*sender == h.pair),
+        Spec::Nobody => Designated::No,
+        Spec::FeeDistributor => yes(*sender == h.distributor),
+        Spec::RegisteredVault => yes(*sender == h.vault),
+        Spec::LpToken => yes(*sender == h.lp_of(contract)),
+        Spec::PoolAssetToken => yes(*sender == h.asset_token),
+        Spec::FlowCreatorOrFactoryOwner => {
+            if *sender == expected_owner(h, "incentive_factory", after) {
+                return Designated::Yes;
+            }
+            let Some(id) = object.and_then(hub::flow_identifier) else { return Designated::No };
+            let named: Vec<&inc::Flow> = flows.iter().filter(|fl| flow_matches(fl, &id)).collect();
+            let own = named.iter().filter(|fl| fl.flow_creator == *sender).count();
+            if own == 0 {
+                Designated::No
+            } else if own == named.len() {
+                Designated::Yes
+            } else {
+                Designated::ByOutcome
+            }
+        }
     }
 }
 
@@ -164,17 +229,47 @@ enum Class {
     NestedUnauth,
     Other,
     Panic,
+    /// inloan only: the nested call succeeded, the enclosing loan transaction failed afterwards
+    Reverted,
+    /// inloan only: the scaffold did not behave (no nested call dispatched / loan failed around a refused call)
+    BadLoan,
 }
+
+fn classify_err(depth: usize, root: &str) -> Class {
+    if is_auth_text(root) {
+        if depth <= 1 {
+            Class::Unauth
+        } else {
+            Class::NestedUnauth
+        }
+    } else {
+        Class::Other
+    }
+}
+
+type Cell = (String, String, String, String, Option<String>);
 
 pub struct AuthMatrix {
     canon: bool,
-    matrix: Vec<(String, String, String, String)>,
+    matrix: Vec<Cell>,
+    /// [genesis ownership (phases before, inloan), after the transfer]
     hubs: [Option<Hub>; 2],
     op_counter: u64,
     self_checked: bool,
+    scaffold_checked: bool,
     /// (monitor, tag) already reported: a failing cell is reported once, later repeats are only counted
     /// (the Monitor keeps at most 200 failures; the known finding must not crowd out a new one)
     reported: std::collections::BTreeSet<(String, String)>,
+}
+
+/// `[None]` for a variant that names no stored object, else one entry per object selector
+fn object_cells(contract: &str, variant: &str) -> Vec<Option<String>> {
+    let o = variants::objects(contract, variant);
+    if o.is_empty() {
+        vec![None]
+    } else {
+        o.iter().map(|s| Some(s.to_string())).collect()
+    }
 }
 
 impl AuthMatrix {
@@ -183,13 +278,23 @@ impl AuthMatrix {
         for phase in PHASES {
             for c in variants::CONTRACTS {
                 for v in variants::full_names(c) {
-                    for r in roles() {
-                        matrix.push((c.to_string(), v.clone(), r, phase.to_string()));
+                    for obj in object_cells(c, &v) {
+                        for r in roles() {
+                            matrix.push((c.to_string(), v.clone(), r, phase.to_string(), obj.clone()));
+                        }
                     }
                 }
             }
         }
-        AuthMatrix { canon: variant == "canon", matrix, hubs: [None, None], op_counter: 0, self_checked: false, reported: Default::default() }
+        AuthMatrix {
+            canon: variant == "canon",
+            matrix,
+            hubs: [None, None],
+            op_counter: 0,
+            self_checked: false,
+            scaffold_checked: false,
+            reported: Default::default(),
+        }
     }
 
     fn hub(&mut self, after: bool, mon: &mut Monitor) -> Result<&mut Hub, String> {
@@ -223,29 +328,61 @@ impl AuthMatrix {
             }
         };
         let mut n = 0u64;
+        let mut n_obj = 0u64;
         for c in variants::CONTRACTS {
             for v in variants::full_names(c) {
-                for seed in 0..4u64 {
-                    let mut cx = payloads::Ctx { hub: &h, sender: &h.u, rng: Rng::new(seed), canon: seed == 0 };
-                    let p = payloads::build(c, &v, &mut cx);
-                    let ok = p.as_ref().map(|p| p.name == v).unwrap_or(false);
-                    mon.check_tag("C16", "matrix_complete", &format!("{c}:{v}"), ok, || {
-                        format!("no payload / wrong variant for {c} {v}: got {:?}", p.as_ref().map(|p| p.name.clone()))
-                    });
+                let cells = object_cells(c, &v);
+                for obj in &cells {
+                    for seed in 0..4u64 {
+                        let mut cx = payloads::Ctx { hub: &h, sender: &h.u, rng: Rng::new(seed), canon: seed == 0, object: obj.as_deref(), inloan: false };
+                        let p = payloads::build(c, &v, &mut cx);
+                        let ok = p.as_ref().map(|p| p.name == v).unwrap_or(false);
+                        mon.check_tag("C16", "matrix_complete", &format!("{c}:{v}"), ok, || {
+                            format!("no payload / wrong variant for {c} {v} {obj:?}: got {:?}", p.as_ref().map(|p| p.name.clone()))
+                        });
+                    }
                 }
                 n += 1;
+                n_obj += cells.len() as u64;
             }
         }
         // constants of the enumeration, written into the key (the check sums counters over shards)
         mon.stat(&format!(
-            "matrix: {} contracts, {} ExecuteMsg variants ({} with Receive/Callback sub-variants), {} roles, {} phases = {} cells per pass [shards reporting]",
+            "matrix: {} contracts, {} ExecuteMsg variants ({} with Receive/Callback sub-variants, {} with one cell per named object), {} roles, {} phases = {} cells per pass [shards reporting]",
             variants::CONTRACTS.len(),
             variants::top_level_count(),
             n,
+            n_obj,
             roles().len(),
             PHASES.len(),
             self.matrix.len()
         ));
+    }
+
+    /// a loan WITHOUT nested call succeeds and leaves every contract and balance byte-identical
+    fn scaffold_check(&mut self, mon: &mut Monitor) {
+        if self.scaffold_checked {
+            return;
+        }
+        self.scaffold_checked = true;
+        let res = match self.hub(false, mon) {
+            Ok(h) => {
+                let before = h.dump();
+                let r = catch_unwind(AssertUnwindSafe(|| h.loan_with(None)));
+                let after = catch_unwind(AssertUnwindSafe(|| h.dump())).unwrap_or_default();
+                match r {
+                    Ok((None, Ok(()))) if after == before => Ok(()),
+                    Ok((None, Ok(()))) => Err(format!("a loan without nested call changed state [{}]", describe_diff(&before, &after))),
+                    Ok(other) => Err(format!("a loan without nested call did not complete: {other:?}")),
+                    Err(_) => Err("a loan without nested call panicked".to_string()),
+                }
+            }
+            Err(e) => Err(format!("hub does not build: {e}")),
+        };
+        if res.is_err() {
+            self.hubs[0] = None;
+        }
+        mon.check_tag("C16", "inloan_scaffold", "empty_loan", res.is_ok(), || res.clone().unwrap_err());
     }
 }
 
@@ -274,13 +411,18 @@ fn describe_diff(a: &[(String, Vec<(Vec<u8>, Vec<u8>)>)], b: &[(String, Vec<(Vec
                 .take(3)
                 .map(|(k, v)| format!("{}={}", String::from_utf8_lossy(k), String::from_utf8_lossy(v).chars().take(80).collect::<String>()))
                 .collect();
-            out.push(format!("{na} [{}]", changed.join("; ")));
+            let gone = ra.iter().filter(|(k, _)| !rb.iter().any(|(k2, _)| k2 == k)).count();
+            out.push(format!("{na} [{}{}]", changed.join("; "), if gone > 0 { format!("; {gone} key(s) removed") } else { String::new() }));
         }
     }
     if a.len() != b.len() {
         out.push("contract set changed".into());
     }
     out.join(" | ")
+}
+
+fn panic_text(e: Box<dyn std::any::Any + Send>) -> String {
+    e.downcast_ref::<String>().cloned().or_else(|| e.downcast_ref::<&str>().map(|s| s.to_string())).unwrap_or_default()
 }
 
 impl Engine for AuthMatrix {
@@ -291,10 +433,11 @@ impl Engine for AuthMatrix {
         self.op_counter += 1;
         self.self_check(mon);
         let ws: Vec<&str> = line.split_whitespace().collect();
-        if ws.len() != 6 || ws[0] != "auth" {
+        if !(ws.len() == 6 || ws.len() == 7) || ws[0] != "auth" {
             return "bad-op".into();
         }
         let (contract, variant, role, phase) = (ws[1], ws[2], ws[3], ws[4]);
+        let object: Option<&str> = ws.get(6).copied();
         let seed: u64 = match ws[5].parse() {
             Ok(s) => s,
             Err(_) => return "bad-op".into(),
@@ -305,53 +448,76 @@ impl Engine for AuthMatrix {
         if !variants::full_names(contract).iter().any(|n| n == variant) {
             return "bad-op".into();
         }
+        // the object token is present exactly for the variants that name a stored object, and is a known selector
+        let selectors = variants::objects(contract, variant);
+        match object {
+            None if !selectors.is_empty() => return "bad-op".into(),
+            Some(o) if !selectors.contains(&o) => return "bad-op".into(),
+            _ => {}
+        }
         let after = phase == "after";
+        let inloan = phase == "inloan";
+        if inloan {
+            self.scaffold_check(mon);
+        }
         let tag = format!("{contract}:{variant}");
         let mut reported = std::mem::take(&mut self.reported);
         let h = match self.hub(after, mon) {
             Ok(h) => h,
             Err(e) => {
                 mon.check("C16", "matrix_complete", false, || format!("hub does not build: {e}"));
+                self.reported = reported;
                 return "bad-op".into();
             }
         };
         let sender = h.role_addr(contract, role).unwrap();
         let target = h.target(contract);
         let p = {
-            let mut cx = payloads::Ctx { hub: h, sender: &sender, rng: Rng::new(seed), canon: seed == 0 };
+            let mut cx = payloads::Ctx { hub: h, sender: &sender, rng: Rng::new(seed), canon: seed == 0, object, inloan };
             match payloads::build(contract, variant, &mut cx) {
                 Some(p) => p,
-                None => return "bad-op".into(),
+                None => {
+                    self.reported = reported;
+                    return "bad-op".into();
+                }
             }
         };
         let before = h.dump();
-        let msg = WasmMsg::Execute { contract_addr: target.to_string(), msg: p.msg.clone(), funds: p.funds.clone() };
-        let res = catch_unwind(AssertUnwindSafe(|| {
-            h.app.execute(sender.clone(), msg.into()).map(|_| ()).map_err(|e| {
-                let chain: Vec<String> = e.chain().map(|c| c.to_string()).collect();
-                let depth = chain.iter().filter(|c| c.starts_with("error executing WasmMsg")).count();
-                (depth, chain.last().cloned().unwrap_or_default())
-            })
-        }));
-        let (class, errtext) = match res {
-            Ok(Ok(())) => (Class::Ok, String::new()),
-            Ok(Err((depth, root))) => {
-                if is_auth_text(&root) {
-                    if depth <= 1 {
-                        (Class::Unauth, root)
-                    } else {
-                        (Class::NestedUnauth, root)
-                    }
-                } else {
-                    (Class::Other, root)
+        let is_close_flow = contract == "incentive" && variant == "CloseFlow";
+        let flows_before = if is_close_flow { h.flows() } else { vec![] };
+        let flow_denom = "uusdc";
+        let bal = |h: &Hub, a: &Addr| h.app.wrap().query_balance(a, flow_denom).map(|c| c.amount).unwrap_or_default();
+        let bals_before = if is_close_flow { vec![bal(h, &h.incentive), bal(h, &h.f), bal(h, &h.g)] } else { vec![] };
+
+        // ---- the call: at top level, or nested in a flash loan of the hub's vault
+        let res: Result<(Class, String), Box<dyn std::any::Any + Send>> = if !inloan {
+            let msg = WasmMsg::Execute { contract_addr: target.to_string(), msg: p.msg.clone(), funds: p.funds.clone() };
+            catch_unwind(AssertUnwindSafe(|| match h.app.execute(sender.clone(), msg.into()) {
+                Ok(_) => (Class::Ok, String::new()),
+                Err(e) => {
+                    let (depth, root) = hub::error_depth_and_root(&e);
+                    (classify_err(depth, &root), root)
                 }
-            }
-            Err(e) => {
-                let m = e.downcast_ref::<String>().cloned().or_else(|| e.downcast_ref::<&str>().map(|s| s.to_string())).unwrap_or_default();
-                (Class::Panic, format!("panic: {m}"))
-            }
+            }))
+        } else {
+            let inner = InjectMsg { sender: sender.to_string(), contract_addr: target.to_string(), msg: p.msg.clone(), funds: p.funds.clone() };
+            catch_unwind(AssertUnwindSafe(|| match h.loan_with(Some(inner)) {
+                (Some(InnerOutcome::Ok), Ok(())) => (Class::Ok, String::new()),
+                (Some(InnerOutcome::Ok), Err((_, root))) => (Class::Reverted, format!("nested call ok; loan then failed: {root}")),
+                (Some(InnerOutcome::Err(depth, root)), Ok(())) => (classify_err(depth, &root), root),
+                (Some(InnerOutcome::Err(_, root)), Err((_, outer))) => {
+                    (Class::BadLoan, format!("nested call refused ({root}) and the loan around it failed: {outer}"))
+                }
+                (None, outer) => (Class::BadLoan, format!("the nested call was never dispatched; loan result {outer:?}")),
+            }))
         };
-        let failed = class != Class::Ok;
+        let (class, errtext) = match res {
+            Ok(x) => x,
+            Err(e) => (Class::Panic, format!("panic: {}", panic_text(e))),
+        };
+        // `admitted`: the target ran the operation for this sender (whatever became of the enclosing transaction)
+        let admitted = matches!(class, Class::Ok | Class::Reverted);
+        let failed = !admitted;
         if std::env::var("AUTH_DEBUG").is_ok() {
             eprintln!("{line} => {class:?} {errtext}");
         }
@@ -360,29 +526,37 @@ impl Engine for AuthMatrix {
 
         // ---- monitors (spec table, real observations)
         let rule = spec_rule(contract, variant);
-        let authorised = rule.map(|r| spec_authorised(h, r, contract, &sender, after)).unwrap_or(true);
+        let designated = rule.map(|r| spec_designated(h, r, contract, &sender, after, object, &flows_before)).unwrap_or(Designated::Yes);
+        let refused_in_loan = inloan && spec_refused_in_loan(contract, variant);
         let what = |s: &str| {
             format!(
-                "{s}: {contract}::{variant} called by role {role} ({sender}) in phase {phase}, payload seed {seed}: outcome {class:?} {}",
-                errtext.chars().take(160).collect::<String>()
+                "{s}: {contract}::{variant}{} called by role {role} ({sender}) in phase {phase}, payload seed {seed}: outcome {class:?} {}",
+                object.map(|o| format!("[{o}]")).unwrap_or_default(),
+                errtext.chars().take(200).collect::<String>()
             )
         };
-        if let Some(_r) = rule {
-            if !authorised {
-                report(&mut reported, mon, "unauthorised_rejected", &tag, failed, || {
-                    what("privileged call by a sender that is not the designated one SUCCEEDED")
-                });
-            }
+        if class == Class::BadLoan {
+            report(&mut reported, mon, "inloan_scaffold", &tag, false, || what("the in-loan scaffold did not work"));
+        } else if inloan {
+            report(&mut reported, mon, "inloan_scaffold", &tag, true, String::new);
         }
-        if failed {
+        if rule.is_some() && designated == Designated::No && class != Class::BadLoan {
+            report(&mut reported, mon, "unauthorised_rejected", &tag, failed, || {
+                what("privileged call by a sender that is not the designated one SUCCEEDED")
+            });
+        }
+        if class != Class::Ok && class != Class::BadLoan {
             report(&mut reported, mon, "rejected_unchanged", &tag, unchanged, || {
                 what(&format!("rejected call changed state [{}]", describe_diff(&before, &after_dump)))
             });
         }
-        if authorised {
+        if designated == Designated::Yes && !refused_in_loan {
             report(&mut reported, mon, "authorised_not_blocked", &tag, class != Class::Unauth, || {
                 what("designated sender / permissionless entry point was refused as unauthorised")
             });
+        }
+        if refused_in_loan {
+            mon.stat(if failed { "inloan:nested_loan_refused" } else { "inloan:nested_loan_NOT_refused" });
         }
         if after && rule == Some(Spec::Owner) && OWNED.contains(&contract) {
             if sender == h.o {
@@ -394,8 +568,48 @@ impl Engine for AuthMatrix {
                 });
             }
         }
-        if !after && rule == Some(Spec::Owner) && OWNED.contains(&contract) && sender == h.n {
+        if !after && rule == Some(Spec::Owner) && OWNED.contains(&contract) && sender == h.n && class != Class::BadLoan {
             report(&mut reported, mon, "ownership_transfer", &tag, failed, || what("the future owner is accepted BEFORE the transfer"));
+        }
+        // ---- a call that names a stored object: WHICH object was touched, and whose was it
+        if is_close_flow && class == Class::Ok {
+            let flows_after = catch_unwind(AssertUnwindSafe(|| h.flows())).unwrap_or_default();
+            let removed: Vec<&inc::Flow> = flows_before.iter().filter(|b| !flows_after.iter().any(|a| a.flow_id == b.flow_id)).collect();
+            let factory_owner = expected_owner(h, "incentive_factory", after);
+            let show = |fl: &inc::Flow| format!("flow {} (label {:?}, creator {})", fl.flow_id, fl.flow_label, fl.flow_creator);
+            let removed_txt = removed.iter().map(|fl| show(fl)).collect::<Vec<_>>().join(", ");
+            // the property, on what the call did: every flow that was removed belonged to the sender (or the
+            // sender is the incentive factory's owner)
+            let rightful = sender == factory_owner || removed.iter().all(|fl| fl.flow_creator == sender);
+            report(&mut reported, mon, "unauthorised_rejected", &tag, rightful, || {
+                what(&format!("CloseFlow by a sender that is neither the creator of the flow it closed nor the factory owner SUCCEEDED; closed: {removed_txt}"))
+            });
+            let id = object.and_then(hub::flow_identifier);
+            let named_ok = removed.len() == 1 && id.as_ref().map(|id| flow_matches(removed[0], id)).unwrap_or(false);
+            let others_same = flows_before
+                .iter()
+                .filter(|b| !removed.iter().any(|r| r.flow_id == b.flow_id))
+                .all(|b| flows_after.iter().any(|a| a == b))
+                && flows_after.len() + removed.len() == flows_before.len();
+            let bals_after = vec![bal(h, &h.incentive), bal(h, &h.f), bal(h, &h.g)];
+            let paid = |i: usize| bals_after[i].checked_sub(bals_before[i]).unwrap_or(Uint128::MAX);
+            let lost = bals_before[0].checked_sub(bals_after[0]).unwrap_or(Uint128::MAX);
+            let refund_ok = removed.len() == 1 && {
+                let (to_f, to_g) = (paid(1), paid(2));
+                if removed[0].flow_creator == h.f {
+                    to_f == lost && to_g.is_zero() && !lost.is_zero()
+                } else {
+                    to_g == lost && to_f.is_zero() && !lost.is_zero()
+                }
+            };
+            report(&mut reported, mon, "close_flow_exact", &tag, named_ok && others_same && refund_ok, || {
+                what(&format!(
+                    "a successful CloseFlow must remove exactly the one flow it names, leave every other flow untouched and pay the remainder to that flow's creator; removed: [{removed_txt}], other flows untouched: {others_same}, remainder to its creator only: {refund_ok}"
+                ))
+            });
+            for fl in &removed {
+                mon.stat(&format!("closeflow:closed:flow{}:{}", fl.flow_id, object.unwrap_or("-")));
+            }
         }
         if class == Class::Panic {
             // a panic aborts the transaction like an error does; it happens past the sender check, so for C16 it
@@ -407,11 +621,21 @@ impl Engine for AuthMatrix {
         mon.stat(&format!("outcome:{class:?}"));
         mon.stat(&format!("phase:{phase}"));
         mon.stat(&format!("role:{role}"));
+        if inloan {
+            mon.stat(&format!("inloan:{class:?}"));
+        }
+        if let Some(o) = object {
+            mon.stat(&format!("object:{contract}:{variant}:{o}"));
+            mon.stat(&format!("object_designation:{designated:?}"));
+        }
         mon.stat(if rule.is_some() { "cell:privileged" } else { "cell:permissionless" });
         if rule.is_some() {
-            mon.stat(if authorised { "privileged:designated_sender" } else { "privileged:other_sender" });
-            if authorised && class == Class::Ok {
+            mon.stat(if designated == Designated::No { "privileged:other_sender" } else { "privileged:designated_sender" });
+            if designated != Designated::No && class == Class::Ok {
                 mon.stat(&format!("designated_ok:{tag}"));
+                if inloan {
+                    mon.stat("inloan:designated_ok");
+                }
             }
         }
         if class == Class::Ok {
@@ -424,7 +648,7 @@ impl Engine for AuthMatrix {
         }
 
         // a call that changed anything (or panicked) spoils the cached hub: rebuild it for the next op
-        if class == Class::Panic {
+        if class == Class::Panic || class == Class::BadLoan {
             unchanged = false; // never reuse an App that unwound
         }
         if !unchanged {
@@ -437,13 +661,18 @@ impl Engine for AuthMatrix {
             Class::NestedUnauth => ("ok", 1, "nested_unauth"),
             Class::Unauth => ("err", 0, "unauth"),
             Class::Panic => ("ok", 0, "panic"),
+            Class::Reverted => ("ok", 0, "reverted"),
+            Class::BadLoan => return "bad-loan".into(),
         };
         format!("{tok} nested={nested} real={real}")
     }
 
     fn next_op(&mut self, rng: &mut Rng, step: u64) -> Option<String> {
-        let (c, v, r, p) = self.matrix.get(step as usize)?;
+        let (c, v, r, p, obj) = self.matrix.get(step as usize)?;
         let seed = if self.canon { 0 } else { 1 + rng.below(1_000_000_000) };
-        Some(format!("auth {c} {v} {r} {p} {seed}"))
+        Some(match obj {
+            Some(o) => format!("auth {c} {v} {r} {p} {seed} {o}"),
+            None => format!("auth {c} {v} {r} {p} {seed}"),
+        })
     }
 }
